@@ -26,7 +26,12 @@ def run_property(prop_id: str, tier: str) -> int:
         run = Run(prop_id, tier, seed)
         prog = Program()
         explanation = mod.check(run, prog, tier)
-        if (tier == "thorough" and not run.violations and hasattr(mod, "run_rules")
+        from .engine.report import load_known_findings, match_known
+
+        known = load_known_findings()
+        unlisted = [v for v in run.violations if match_known(known, prop_id, v) is None]
+        # (a listed known finding is shared by the base tree and every mutant: it does not stand in the sweep's way)
+        if (tier == "thorough" and not unlisted and hasattr(mod, "run_rules")
                 and not os.environ.get("VERIF_SELFTEST") and os.environ.get("VERIF_SWEEP", "1") != "0"):
             from .engine.mutate import sweep
 
